@@ -317,11 +317,14 @@ func burst(c *Case, addr string, baseline map[int]*srv.Resp) error {
 		// whatever they leave behind (pooled state) is fresh when the batch starts
 		for _, r := range c.Reqs {
 			if r.Script != nil && len(r.Script.Chunks) > 0 && r.Script.Ret >= 400 {
-				doReq(addr, "gz.test", r)
-				doReq(addr, "gz.test", r)
+				// a handler that fails after it has started writing (a backend dying mid-body):
+				// several of them, so that whatever they leave behind is there in numbers
+				for k := 0; k < 8; k++ {
+					doReq(addr, "gz.test", r)
+				}
 			}
 		}
-		const copies = 3
+		const copies = 6
 		ch := make(chan out, copies*len(c.Reqs))
 		for k := 0; k < copies; k++ {
 			for i, r := range c.Reqs {
@@ -483,6 +486,7 @@ func genScript(t *rapid.T, lb string) *probe.Script {
 		return s
 	}
 	s.Status = rapid.SampledFrom([]int{200, 200, 200, 0, 201, 204, 304, 404, 500, 206}).Draw(t, lb+"status")
+	s.FlushFirst = rapid.IntRange(0, 9).Draw(t, lb+"ff") == 0
 	nch := rapid.IntRange(0, 4).Draw(t, lb+"nch")
 	total := 0
 	if s.Status == 204 || s.Status == 304 {
